@@ -13,6 +13,9 @@
 //!        enumerated inside the harness -> `n=.. ok=.. diag=..` (+ `PANIC <hex> msg`)
 //!   `Q <opts> <hex aag> <hex aig>`  both must parse to the same problem
 //!        -> `SAME` | `DIFF ..` | `ERR1` | `ERR2` | `ERRBOTH`
+//!   `A <opts> <hex>`  parse one AIGER input -> `OK <field-by-field dump>` | `DIAG` | `PANIC ..`
+//!        (compared with the extracted model parser of coq/IO/AigerParse.v)
+//!   `D <opts> <family> <hex seed> <rseed>`  mutations of one AIGER seed, one `A` line each
 //!   `V <inputs> <d1> <d2>`  binary AIGER file with one AND gate whose deltas are
 //!        d1, d2 (7-bit varint codec) -> `<hex of the two varints> <in1> <in2>` | `.. DIAG`
 //!
@@ -452,6 +455,273 @@ fn run_varint(line: &str) -> String {
 }
 
 // ---------------------------------------------------------------------------
+// field-by-field dump of a parsed AIGER problem (C18p: compared with the model)
+// ---------------------------------------------------------------------------
+
+/// Parses the `{:?}` text of a `Vec<Option<String>>` starting at `pos` (which
+/// must point at `[`); returns the entries and the position after `]`.
+fn parse_debug_names(b: &[u8], mut pos: usize) -> Option<(Vec<Option<Vec<u8>>>, usize)> {
+    if b.get(pos) != Some(&b'[') {
+        return None;
+    }
+    pos += 1;
+    let mut res = Vec::new();
+    loop {
+        match b.get(pos)? {
+            b']' => return Some((res, pos + 1)),
+            b',' | b' ' => pos += 1,
+            b'N' => {
+                // None
+                if !b[pos..].starts_with(b"None") {
+                    return None;
+                }
+                res.push(None);
+                pos += 4;
+            }
+            b'S' => {
+                if !b[pos..].starts_with(b"Some(\"") {
+                    return None;
+                }
+                pos += 6;
+                let mut name: Vec<u8> = Vec::new();
+                loop {
+                    let c = *b.get(pos)?;
+                    if c == b'"' {
+                        pos += 1;
+                        break;
+                    }
+                    if c != b'\\' {
+                        name.push(c);
+                        pos += 1;
+                        continue;
+                    }
+                    let e = *b.get(pos + 1)?;
+                    pos += 2;
+                    match e {
+                        b'n' => name.push(b'\n'),
+                        b'r' => name.push(b'\r'),
+                        b't' => name.push(b'\t'),
+                        b'0' => name.push(0),
+                        b'\\' | b'"' | b'\'' => name.push(e),
+                        b'u' => {
+                            // \u{hex}
+                            if b.get(pos) != Some(&b'{') {
+                                return None;
+                            }
+                            let end = pos + b[pos..].iter().position(|&x| x == b'}')?;
+                            let cp = u32::from_str_radix(std::str::from_utf8(&b[pos + 1..end]).ok()?, 16).ok()?;
+                            let ch = char::from_u32(cp)?;
+                            let mut buf = [0u8; 4];
+                            name.extend_from_slice(ch.encode_utf8(&mut buf).as_bytes());
+                            pos = end + 1;
+                        }
+                        _ => return None,
+                    }
+                }
+                if b.get(pos) != Some(&b')') {
+                    return None;
+                }
+                pos += 1;
+                res.push(Some(name));
+            }
+            _ => return None,
+        }
+    }
+}
+
+/// text of the bracketed list that follows `key` (first occurrence), brackets included
+fn debug_field<'a>(dbg: &'a str, key: &str) -> Option<&'a str> {
+    let start = dbg.find(key)? + key.len();
+    let b = dbg.as_bytes();
+    if b.get(start) != Some(&b'[') {
+        return None;
+    }
+    let mut depth = 0usize;
+    for (i, &c) in b[start..].iter().enumerate() {
+        match c {
+            b'[' => depth += 1,
+            b']' => {
+                depth -= 1;
+                if depth == 0 {
+                    return Some(&dbg[start..start + i + 1]);
+                }
+            }
+            _ => {}
+        }
+    }
+    None
+}
+
+/// `[+i0, -g1, ⊥]` -> `+i0 -g1 F`; nested lists: inner lists separated by `;`
+fn debug_lits(field: &str) -> String {
+    let inner = &field[1..field.len() - 1];
+    let conv = |t: &str| -> String {
+        t.split(',')
+            .map(|x| x.trim())
+            .filter(|x| !x.is_empty())
+            .map(|x| match x {
+                "⊥" => "F".to_string(),
+                "⊤" => "T".to_string(),
+                _ => x.to_string(),
+            })
+            .collect::<Vec<_>>()
+            .join(" ")
+    };
+    if inner.trim_start().starts_with('[') {
+        // list of lists
+        let mut parts = Vec::new();
+        let mut rest = inner;
+        while let Some(a) = rest.find('[') {
+            let b = rest[a..].find(']').unwrap() + a;
+            parts.push(conv(&rest[a + 1..b]));
+            rest = &rest[b + 1..];
+        }
+        parts.iter().map(|p| format!("{p};")).collect::<Vec<_>>().join(" ")
+    } else {
+        conv(inner)
+    }
+}
+
+fn fmt_names(names: &[Option<Vec<u8>>], count: usize) -> String {
+    // one token per object: `-` (no name) or `=<hex of the UTF-8 bytes>`
+    (0..count)
+        .map(|i| match names.get(i) {
+            Some(Some(n)) => format!("={}", if n.is_empty() { String::new() } else { hex(n) }),
+            _ => "-".to_string(),
+        })
+        .collect::<Vec<_>>()
+        .join(" ")
+}
+
+/// Every field of `Problem { circuit, details: AIGER(..) }` in a canonical text
+/// form.  Fields without a public accessor (bad, invariants, justice, fairness
+/// and the name vectors) are taken from the `Debug` text of `AIGERDetails`.
+fn dump_aiger(p: &Problem) -> String {
+    let a = match &p.details {
+        ProblemDetails::AIGER(a) => a,
+        _ => return "NOT-AIGER".into(),
+    };
+    let nl = a.latches().len();
+    let resets: Vec<&str> = (0..nl)
+        .map(|i| match a.latch_init_value(i) {
+            Some(false) => "0",
+            Some(true) => "1",
+            None => "x",
+        })
+        .collect();
+    let dbg = format!("{:?}", a);
+    let get = |key: &str| -> String { debug_field(&dbg, key).map(debug_lits).unwrap_or_else(|| "?".into()) };
+    let mut map = Vec::new();
+    let mut v = 0usize;
+    while let Some(l) = a.map_aiger_literal(2 * v) {
+        map.push(l);
+        v += 1;
+    }
+    let mut ands = Vec::new();
+    for g in p.circuit.iter_gates() {
+        let ins: Vec<String> = g.inputs.iter().map(|&l| fmt_lit(l)).collect();
+        ands.push(format!("{}:{}", kind_letter(g.kind), ins.join("&")));
+    }
+    // name vectors: sequentially from the Debug text (after the literal fields)
+    let b = dbg.as_bytes();
+    let mut lists: Vec<Vec<Option<Vec<u8>>>> = Vec::new();
+    let mut pos = dbg.find(", output_names: ").map(|x| x + ", output_names: ".len());
+    for next in [", bad_names: ", ", invariant_names: ", ", justice_names: ", ", fairness_names: ", ""] {
+        let Some(p0) = pos else { break };
+        let Some((l, p1)) = parse_debug_names(b, p0) else { break };
+        lists.push(l);
+        pos = if !next.is_empty() && dbg[p1..].starts_with(next) { Some(p1 + next.len()) } else { None };
+    }
+    let nvars = p.circuit.inputs().len();
+    let in_names: Vec<Option<Vec<u8>>> =
+        (0..nvars).map(|i| p.circuit.inputs().name(i).map(|s| s.as_bytes().to_vec())).collect();
+    let names = if lists.len() == 5 {
+        let cnt = |key: &str| -> usize {
+            let f = get(key);
+            if key == "justice: " { f.matches(';').count() } else { f.split_whitespace().count() }
+        };
+        format!(
+            "i[{}] o[{}] b[{}] c[{}] j[{}] f[{}]",
+            fmt_names(&in_names, nvars),
+            fmt_names(&lists[0], a.outputs().len()),
+            fmt_names(&lists[1], cnt(", bad: ")),
+            fmt_names(&lists[2], cnt(", invariants: ")),
+            fmt_names(&lists[3], cnt("justice: ")),
+            fmt_names(&lists[4], cnt(", fairness: "))
+        )
+    } else {
+        "?".into()
+    };
+    // cross-check of the accessors against the Debug text
+    for (i, l) in lists.iter().enumerate().take(4) {
+        for (k, n) in l.iter().enumerate() {
+            let acc = match i {
+                0 => a.output_name(k),
+                1 => a.bad_name(k),
+                2 => a.invariant_name(k),
+                _ => a.justice_name(k),
+            };
+            assert_eq!(acc.map(|s| s.as_bytes().to_vec()), *n, "name accessor differs from the Debug text");
+        }
+    }
+    format!(
+        "in={} nv={} | lat {} | res {} | out {} | bad {} | inv {} | just {} | fair {} | ands {} | map {} | names {}",
+        a.inputs(),
+        nvars,
+        fmt_lits(a.latches()),
+        resets.join(" "),
+        fmt_lits(a.outputs()),
+        get(", bad: "),
+        get(", invariants: "),
+        get("justice: "),
+        get(", fairness: "),
+        ands.join(" "),
+        fmt_lits(&map),
+        names
+    )
+}
+
+/// `A <opts> <hex>`: result text for one AIGER input (panics are caught here so
+/// that a batch goes on)
+fn aiger_result(mask: u64, data: &[u8]) -> String {
+    let o = opts(mask);
+    let r = std::panic::catch_unwind(std::panic::AssertUnwindSafe(|| match parse_direct("aiger", &o, data) {
+        Some(p) => {
+            post_ok(&p);
+            format!("OK {}", dump_aiger(&p))
+        }
+        None => "DIAG".into(),
+    }));
+    match r {
+        Ok(s) => s,
+        Err(e) => format!("PANIC {}", panic_msg(e)),
+    }
+}
+
+/// `D <opts> <family> <hex seed> <rseed>`
+fn run_aiger_mut(line: &str, out: &mut dyn FnMut(String)) {
+    let t: Vec<&str> = line.split_whitespace().collect();
+    let (mask, family, seed) = (t[1].parse::<u64>().unwrap(), t[2], unhex(t[3]));
+    let rseed: u64 = t.get(4).and_then(|x| x.parse().ok()).unwrap_or(1);
+    let (mut n, mut skipped) = (0u64, 0u64);
+    let mut seen = std::collections::HashSet::new();
+    mutations(family, &seed, rseed, &mut |data: &[u8]| {
+        // header counts size allocations (known finding) and the model's variable map:
+        // numbers of 6 and more digits are outside this stream
+        if has_digit_run(data, 6) {
+            skipped += 1;
+            return;
+        }
+        if !seen.insert(data.to_vec()) {
+            return;
+        }
+        n += 1;
+        out(format!("A {mask} {} -> {}", hex(data), aiger_result(mask, data)));
+    });
+    out(format!("{line} -> n={n} skipped={skipped}"));
+}
+
+// ---------------------------------------------------------------------------
 // generators
 // ---------------------------------------------------------------------------
 
@@ -880,6 +1150,23 @@ fn gen_parse(tier: &str, rng: &mut Rng, em: &mut Emit) {
     }
 }
 
+/// C18p: mutations of the AIGER seeds, every mutated input compared with the model parser
+fn gen_aiger_mut(tier: &str, rng: &mut Rng, em: &mut Emit) {
+    let thorough = tier == "thorough";
+    for s in aiger_seeds() {
+        for family in ["trunc", "subst", "delins", if thorough { "multi20000" } else { "multi1200" }] {
+            // bit 2 of the option mask = check_acyclic (the only option the AIGER reader looks at)
+            let masks: Vec<u64> = if thorough || family == "trunc" { vec![4, 0] } else { vec![if rng.chance(3, 4) { 4 } else { 0 }] };
+            for mask in masks {
+                em.case("aigmut", &[format!("D {mask} {family} {} {}", hex(s), rng.below(1 << 30))]);
+            }
+        }
+        if thorough {
+            em.case("aigmut", &[format!("D 4 substall {} 1", hex(s))]);
+        }
+    }
+}
+
 fn main() {
     let args: Vec<String> = std::env::args().collect();
     match mode().as_str() {
@@ -898,6 +1185,11 @@ fn main() {
             let mut em = Emit { id: 0, shard, nshards, prefix: "p".into() };
             if what == "all" || what == "parse" {
                 gen_parse(&tier, &mut rng, &mut em);
+            }
+            let mut rng = Rng::new(seed ^ 0xa16e5);
+            let mut em = Emit { id: 0, shard, nshards, prefix: "m".into() };
+            if what == "aiger" {
+                gen_aiger_mut(&tier, &mut rng, &mut em);
             }
         }
         _ => {
@@ -928,6 +1220,12 @@ fn main() {
                             let r = run_varint(line);
                             out(format!("{line} -> {r}"));
                         }
+                        "A" => {
+                            let t: Vec<&str> = line.split_whitespace().collect();
+                            let r = aiger_result(t[1].parse::<u64>().unwrap(), &unhex(t[2]));
+                            out(format!("{line} -> {r}"));
+                        }
+                        "D" => run_aiger_mut(line, out),
                         _ => panic!("unknown op line {line}"),
                     }
                 }
